@@ -126,6 +126,8 @@ def run(tier, seed, replay=None):
                     key = "F-ok" if ref == [] else "F-bad"
                     if ref:
                         note("oracle", txt, o, f"rejected as unsolvable although the reference domains admit {ref[0]}")
+                elif key == "E":
+                    note("error", txt, o, f"a well-typed program is rejected with an error: {v}")
                 elif key == "X" and v != "X:HANG":
                     note("abnormal", txt, o, f"the solver ended abnormally: {v}")
                 stats[(cfg, key)] = stats.get((cfg, key), 0) + 1
